@@ -1,0 +1,85 @@
+//! Verification hooks. Compiled only with the cargo feature `verif`; with the feature off
+//! none of this exists and the crate is unchanged.
+//!
+//! The hooks let an external harness observe (and park at) the points where threads of the
+//! storage engine touch shared state, and call a few otherwise private functions. They never
+//! change what the engine does: every hook is a call into a process-global function pointer
+//! that is a no-op unless a harness installed one.
+
+use std::sync::atomic::{AtomicUsize, Ordering};
+
+/// A shared resource named by the hooks: a static name and an index (e.g. a KeyDir shard).
+pub type Res = (&'static str, u64);
+
+/// The writer mutex.
+pub const WRITER: Res = ("writer", 0);
+/// All KeyDir shards at once (held by a merge while its iterator moves between entries).
+pub const KD_ITER: Res = ("kd_iter", 0);
+/// One KeyDir shard.
+pub fn kd(shard: usize) -> Res {
+    ("kd", shard as u64)
+}
+
+/// Events announced to the harness.
+#[derive(Debug, Clone, Copy, PartialEq, Eq)]
+pub enum Ev {
+    /// A labelled point with no resource attached.
+    Point(&'static str),
+    /// The thread is about to acquire `Res` (exclusively if the flag is set).
+    Acquire(Res, bool),
+    /// The thread has released `Res`.
+    Release(Res, bool),
+    /// A merge that holds `KD_ITER` is now positioned on an entry of this shard only.
+    MergeAt(u64),
+    /// The thread is about to spin waiting for another thread to make progress.
+    SpinYield,
+}
+
+static HOOK: AtomicUsize = AtomicUsize::new(0);
+
+/// Install the process-global hook function.
+pub fn set_hook(f: fn(Ev)) {
+    HOOK.store(f as usize, Ordering::SeqCst);
+}
+
+/// Announce an event; does nothing unless a hook is installed.
+#[inline]
+pub fn emit(e: Ev) {
+    let p = HOOK.load(Ordering::SeqCst);
+    if p != 0 {
+        // SAFETY: the only non-zero value ever stored is a `fn(Ev)` pointer (see `set_hook`).
+        let f: fn(Ev) = unsafe { std::mem::transmute(p) };
+        f(e)
+    }
+}
+
+/// RAII shadow of a lock: `Acquire` on creation, `Release` on drop.
+#[derive(Debug)]
+pub struct Held(Res, bool);
+
+/// Announce the acquisition of `res` and return the guard that announces its release.
+pub fn lock(res: Res, excl: bool) -> Held {
+    emit(Ev::Acquire(res, excl));
+    Held(res, excl)
+}
+
+impl Drop for Held {
+    fn drop(&mut self) {
+        emit(Ev::Release(self.0, self.1));
+    }
+}
+
+/// Snapshot of the in-memory state of a store, see `Handle::verif_dump`.
+#[derive(Debug, Clone, Default, PartialEq, Eq)]
+pub struct Dump {
+    /// Sorted `(key, file id, position, length)` of every KeyDir entry.
+    pub keydir: Vec<(Vec<u8>, u64, u64, u64)>,
+    /// Sorted `(file id, live keys, dead keys, dead bytes)` of every statistics record.
+    pub stats: Vec<(u64, u64, u64, u64)>,
+    /// Id of the active data file.
+    pub active_fileid: u64,
+    /// Bytes written to the active data file so far.
+    pub written_bytes: u64,
+    /// Number of readers currently in the pool, and the pool's capacity.
+    pub readers: (usize, usize),
+}
